@@ -1,8 +1,18 @@
 (* C05 — the operational machine of CalcDefs.v computes the denotation of DenoteDefs.v:
    for every expression without stop-reactive leaves and with unique leaf ids, and every script
    without stop requests, the root receiver completes iff the denotation says so, with exactly
-   that outcome, after exactly that many script events. *)
+   that outcome, after exactly that many script events (C05_result, C05_result_unique,
+   C05_timing), and the user callables are applied exactly as the denotation says (C05_calls).
 
+   Plan of the proof:
+     1. first_leaf_event; normal forms of denote (denote_un / denote_seq / denote_conc);
+        completion times (denote_cause); causality of the stop instant (denote_causal);
+        self-consistency of the plan of a concurrent node (Section Plan, Section PlanCoh).
+     2. the machine one constructor at a time (start_Un ... leafev_Bin_conc), conc_child_done
+        (ccd_spec, CI_child_a/b, CI_final).
+     3. the simulation invariant Inv and its four transitions: leafev_miss / inv_advance (an event
+        that is not ours), stop_spec (a stop request is delivered), start_spec, step_spec.
+     4. whole runs (run_prefix_inv) and the theorems. *)
 From Coq Require Import ZArith List Bool Arith Lia.
 From V Require Import Calc.CalcDefs Calc.DenoteDefs.
 Import ListNotations.
@@ -148,16 +158,6 @@ End WithScript.
 (* ------------------------------------------------------------------------------------------ *)
 (* normal forms of the denotation                                                               *)
 
-(* sequential kinds: the successor's bound values and the parked result, if a's outcome starts it *)
-Definition seq_next (k : bkind) (bs : list Z) (oa : outcome) : option (list Z * option outcome) :=
-  match k, oa with
-  | BLetV, OVal v => Some (v :: bs, None)
-  | BLetE, OErr x => Some (x :: bs, None)
-  | BLetD, ODone => Some (bs, None)
-  | BSeq, OVal _ => Some (bs, None)
-  | BFinally, _ => Some (bs, Some oa)
-  | _, _ => None
-  end.
 
 Definition conc_out (k : bkind) (stopped af : bool) (oa ob : outcome) : outcome :=
   match k with BWhenAll => when_all_out stopped af oa ob | _ => oa end.
@@ -734,6 +734,139 @@ Qed.
 End Plan.
 
 (* ------------------------------------------------------------------------------------------ *)
+(* the calls of the denotation                                                                  *)
+
+Lemma tcalls_app : forall l1 l2, tcalls (l1 ++ l2) = tcalls l1 ++ tcalls l2.
+Proof. intros. unfold tcalls. apply flat_map_app. Qed.
+
+Lemma un_result_calls : forall k o, tcalls (fst (un_result k o)) = un_call k o.
+Proof. intros k o. destruct k; destruct o; reflexivity. Qed.
+
+Lemma until_nil : forall r n, until r n [] = [].
+Proof. intros [[o t]|] n; simpl; [destruct (t <? n)|]; reflexivity. Qed.
+
+Lemma until_pending : forall r n l, done_by r n = false -> until r (S n) l = l.
+Proof.
+  intros [[o t]|] n l H; simpl in *; [|reflexivity]. apply Nat.leb_gt in H.
+  destruct (t <? S n) eqn:E; [apply Nat.ltb_lt in E; lia|reflexivity].
+Qed.
+
+Lemma until_done : forall r n l, done_by r n = true -> until r (S n) l = [].
+Proof.
+  intros [[o t]|] n l H; simpl in *; [|discriminate]. apply Nat.leb_le in H.
+  destruct (t <? S n) eqn:E; [reflexivity|apply Nat.ltb_ge in E; lia].
+Qed.
+
+Lemma until_lower : forall r t0 l, (forall o t, r = Some (o, t) -> t0 <= t) -> until r t0 l = l.
+Proof.
+  intros [[o t]|] t0 l H; simpl; [|reflexivity]. specialize (H o t eq_refl).
+  destruct (t <? t0) eqn:E; [apply Nat.ltb_lt in E; lia|reflexivity].
+Qed.
+
+Section WithScript.
+Variable script : list sev.
+Notation D := (denote script).
+Notation C := (calls_at script).
+
+Lemma calls_un : forall k s bs t0 ts n,
+  C (Un k s) bs t0 ts n =
+  C s bs t0 (un_ts k ts) n ++
+  match D s bs t0 (un_ts k ts) with Some (o, t) => if t =? n then un_call k o else [] | None => [] end.
+Proof. reflexivity. Qed.
+
+Lemma calls_seq : forall k a b bs t0 ts n, is_seq k = true ->
+  C (Bin k a b) bs t0 ts n =
+  match D a bs t0 ts with
+  | Some (oa, t1) =>
+      (if t1 <? n then [] else C a bs t0 ts n) ++
+      match seq_next k bs oa with
+      | Some (bs', _) => if t1 <=? n then C b bs' t1 ts n else []
+      | None => []
+      end
+  | None => C a bs t0 ts n
+  end.
+Proof. intros k a b bs t0 ts n Hk. cbn [calls_at]. rewrite Hk. reflexivity. Qed.
+
+Lemma calls_conc : forall k a b bs t0 ts n, is_seq k = false ->
+  C (Bin k a b) bs t0 ts n =
+  let sg := conc_sigma k (D a bs t0) (D b bs t0) t0 ts in
+  let af := conc_afirst k (D a bs t0) (D b bs t0) t0 ts in
+  let pa := if af then ts else sg in
+  let pb := if af then sg else ts in
+  until (D a bs t0 pa) n (C a bs t0 pa n) ++ until (D b bs t0 pb) n (C b bs t0 pb n).
+Proof. intros k a b bs t0 ts n Hk. cbn [calls_at]. rewrite Hk. reflexivity. Qed.
+
+Lemma denote_not_at : forall e, no_leafn e = true -> forall bs t0 ts n id o o' t,
+  nth_error script n = Some (EvLeaf id o) -> ~ In id (leaf_ids e) -> t0 <= n ->
+  D e bs t0 ts = Some (o', t) -> t <> S n.
+Proof.
+  intros e Hn bs t0 ts n id o o' t Hev Hni Hle Hd Heq. subst t.
+  apply (denote_cause script e Hn) in Hd. destruct Hd as [Hd|[_ [id2 [o2 [E1 E2]]]]]; [lia|].
+  replace (S n - 1) with n in E1 by lia. rewrite Hev in E1. inversion E1; subst. contradiction.
+Qed.
+
+(* an event for a leaf that is not ours: no calls *)
+Lemma calls_quiet : forall e, no_leafn e = true -> forall bs t0 ts n id o,
+  nth_error script n = Some (EvLeaf id o) -> ~ In id (leaf_ids e) -> t0 <= n ->
+  C e bs t0 ts (S n) = [].
+Proof.
+  induction e as [v|x| |m|id'|id'|k s IHs|k a IHa b IHb]; intros Hn bs t0 ts n id o Hev Hni Hle;
+    try reflexivity.
+  - rewrite calls_un, (IHs Hn _ _ _ _ _ _ Hev Hni Hle). simpl.
+    destruct (D s bs t0 (un_ts k ts)) as [[o1 t]|] eqn:Ds; [|reflexivity].
+    pose proof (denote_not_at s Hn _ _ _ _ _ _ _ _ Hev Hni Hle Ds) as Hne.
+    apply Nat.eqb_neq in Hne. rewrite Hne. reflexivity.
+  - cbn [no_leafn] in Hn. apply andb_true_iff in Hn. destruct Hn as [Hna Hnb].
+    cbn [leaf_ids] in Hni.
+    assert (Hnia : ~ In id (leaf_ids a)) by (intro H; apply Hni; apply in_or_app; left; exact H).
+    assert (Hnib : ~ In id (leaf_ids b)) by (intro H; apply Hni; apply in_or_app; right; exact H).
+    destruct (is_seq k) eqn:Hk.
+    + rewrite (calls_seq _ _ _ _ _ _ _ Hk), (IHa Hna _ _ _ _ _ _ Hev Hnia Hle).
+      destruct (D a bs t0 ts) as [[oa t1]|] eqn:Da; [|reflexivity].
+      assert (G1 : (if t1 <? S n then [] else @nil (fn * Z)) = []) by (destruct (t1 <? S n); reflexivity).
+      rewrite G1. simpl. destruct (seq_next k bs oa) as [[bs' sv]|]; [|reflexivity].
+      destruct (t1 <=? S n) eqn:Et; [|reflexivity]. apply Nat.leb_le in Et.
+      pose proof (denote_not_at a Hna _ _ _ _ _ _ _ _ Hev Hnia Hle Da) as Hne.
+      apply (IHb Hnb _ _ _ _ _ _ Hev Hnib). lia.
+    + rewrite (calls_conc _ _ _ _ _ _ _ Hk). cbv zeta.
+      rewrite (IHa Hna _ _ _ _ _ _ Hev Hnia Hle), (IHb Hnb _ _ _ _ _ _ Hev Hnib Hle), !until_nil. reflexivity.
+Qed.
+
+(* an operation that has completed makes no more calls *)
+Lemma calls_after_done : forall e, no_leafn e = true -> forall bs t0 ts o t n,
+  D e bs t0 ts = Some (o, t) -> t < n -> C e bs t0 ts n = [].
+Proof.
+  induction e as [v|x| |m|id'|id'|k s IHs|k a IHa b IHb]; intros Hn bs t0 ts o t n Hd Hlt;
+    try reflexivity.
+  - rewrite calls_un. rewrite denote_un in Hd.
+    destruct (D s bs t0 (un_ts k ts)) as [[o1 t1]|] eqn:Ds; [|discriminate]. inversion Hd; subst.
+    rewrite (IHs Hn _ _ _ _ _ _ Ds Hlt). simpl.
+    destruct (t =? n) eqn:E; [apply Nat.eqb_eq in E; lia|reflexivity].
+  - cbn [no_leafn] in Hn. apply andb_true_iff in Hn. destruct Hn as [Hna Hnb].
+    destruct (is_seq k) eqn:Hk.
+    + rewrite (calls_seq _ _ _ _ _ _ _ Hk). rewrite (denote_seq _ _ _ _ _ _ _ Hk) in Hd.
+      destruct (D a bs t0 ts) as [[oa t1]|] eqn:Da; [|discriminate].
+      destruct (seq_next k bs oa) as [[bs' sv]|].
+      * destruct (D b bs' t1 ts) as [[ob t2]|] eqn:Db; [|discriminate]. inversion Hd; subst.
+        pose proof (denote_ge script b Hnb _ _ _ _ _ Db) as Hge.
+        assert (E1 : (t1 <? n) = true) by (apply Nat.ltb_lt; lia). rewrite E1.
+        assert (E2 : (t1 <=? n) = true) by (apply Nat.leb_le; lia). rewrite E2.
+        simpl. exact (IHb Hnb _ _ _ _ _ _ Db Hlt).
+      * inversion Hd; subst. assert (E1 : (t <? n) = true) by (apply Nat.ltb_lt; lia).
+        rewrite E1. reflexivity.
+    + rewrite (calls_conc _ _ _ _ _ _ _ Hk). rewrite (denote_conc _ _ _ _ _ _ _ Hk) in Hd.
+      unfold conc_children in Hd. cbv zeta.
+      destruct (D a bs t0 _) as [[oa ta]|]; [|discriminate].
+      destruct (D b bs t0 _) as [[ob tb]|]; [|discriminate].
+      cbn [conc_result] in Hd. inversion Hd; subst. simpl.
+      assert (E1 : (ta <? n) = true) by (apply Nat.ltb_lt; lia).
+      assert (E2 : (tb <? n) = true) by (apply Nat.ltb_lt; lia).
+      rewrite E1, E2. reflexivity.
+Qed.
+
+End WithScript.
+
+(* ------------------------------------------------------------------------------------------ *)
 (* the machine, one constructor at a time                                                       *)
 
 Lemma start_Un : forall k s en,
@@ -1229,42 +1362,45 @@ Qed.
 
 Lemma stop_spec : forall e, no_leafn e = true -> forall bs t0 ts n st,
   Inv e bs t0 ts n false st ->
-  exists st' tr, stop e st = (st', tr, None) /\ Inv e bs t0 ts n true st'.
+  exists st' tr, stop e st = (st', tr, None) /\ tcalls tr = [] /\ Inv e bs t0 ts n true st'.
 Proof.
   induction e as [v|x| |m|id'|id'|k s IHs|k a IHa b IHb]; intros Hn bs t0 ts n st HI;
     try (exfalso; exact HI).
-  - destruct HI as [seen ->]. destruct seen; cbn [stop]; do 2 eexists; (split; [reflexivity|]); eexists; reflexivity.
+  - destruct HI as [seen ->].
+    destruct seen; cbn [stop]; do 2 eexists; (split; [reflexivity|]); (split; [reflexivity|]); eexists; reflexivity.
   - destruct HI as [ns [sc [-> Hs]]]. rewrite stop_Un.
     destruct k;
-      try (destruct (IHs Hn _ _ _ _ _ Hs) as [sc' [tr [Es Hs']]]; cbv zeta; rewrite Es;
-           do 2 eexists; (split; [reflexivity|]); do 2 eexists; (split; [reflexivity|exact Hs'])).
-    do 2 eexists. split; [reflexivity|]. exists ns, sc. split; [reflexivity|exact Hs].
+      try (destruct (IHs Hn _ _ _ _ _ Hs) as [sc' [tr [Es [Hc Hs']]]]; cbv zeta; rewrite Es;
+           do 2 eexists; (split; [reflexivity|]); (split; [exact Hc|]);
+           do 2 eexists; (split; [reflexivity|exact Hs'])).
+    do 2 eexists. split; [reflexivity|]. split; [reflexivity|]. exists ns, sc. split; [reflexivity|exact Hs].
   - cbn [no_leafn] in Hn. apply andb_true_iff in Hn. destruct Hn as [Hna Hnb].
     destruct HI as [ns [sa [sb [-> [Hbs [Hst Hrest]]]]]].
     destruct (is_seq k) eqn:Hk.
     + rewrite (stop_Bin_seq _ _ _ _ _ _ Hk). cbv zeta.
       assert (G1 : ph ns = PFirst /\ Inv a bs t0 ts n false sa ->
-                   exists sa' tr, stop a sa = (sa', tr, None) /\ ph ns = PFirst /\ Inv a bs t0 ts n true sa').
-      { intros [Hph Ha]. destruct (IHa Hna _ _ _ _ _ Ha) as [sa' [tr [Es Ha']]]. exists sa', tr. auto. }
+                   exists sa' tr, stop a sa = (sa', tr, None) /\ tcalls tr = [] /\
+                                  ph ns = PFirst /\ Inv a bs t0 ts n true sa').
+      { intros [Hph Ha]. destruct (IHa Hna _ _ _ _ _ Ha) as [sa' [tr [Es [Hc Ha']]]]. exists sa', tr. auto. }
       destruct (D a bs t0 ts) as [[oa t1]|] eqn:Ra.
       * destruct (t1 <=? n) eqn:Et.
         -- destruct (seq_next k bs oa) as [[bs' sv]|] eqn:Hsn; [|contradiction].
            destruct Hrest as [Hph [Hsv Hb]].
-           destruct (IHb Hnb _ _ _ _ _ Hb) as [sb' [tr [Es Hb']]].
+           destruct (IHb Hnb _ _ _ _ _ Hb) as [sb' [tr [Es [Hc Hb']]]].
            exists (ONode (ns_set_env ns (env_with_stop (n_env ns) true)) sa sb'), tr.
-           split; [destruct (ph ns); [contradiction| |]; rewrite Es; reflexivity|].
+           split; [destruct (ph ns); [contradiction| |]; rewrite Es; reflexivity|]. split; [exact Hc|].
            exists (ns_set_env ns (env_with_stop (n_env ns) true)), sa, sb'.
            split; [reflexivity|]. split; [exact Hbs|]. split; [reflexivity|].
            rewrite Hk, Ra, Et, Hsn. auto.
-        -- destruct (G1 Hrest) as [sa' [tr [Es [Hph Ha']]]].
+        -- destruct (G1 Hrest) as [sa' [tr [Es [Hc [Hph Ha']]]]].
            exists (ONode (ns_set_env ns (env_with_stop (n_env ns) true)) sa' sb), tr.
-           split; [rewrite Hph, Es; reflexivity|].
+           split; [rewrite Hph, Es; reflexivity|]. split; [exact Hc|].
            exists (ns_set_env ns (env_with_stop (n_env ns) true)), sa', sb.
            split; [reflexivity|]. split; [exact Hbs|]. split; [reflexivity|].
            rewrite Hk, Ra, Et. auto.
-      * destruct (G1 Hrest) as [sa' [tr [Es [Hph Ha']]]].
+      * destruct (G1 Hrest) as [sa' [tr [Es [Hc [Hph Ha']]]]].
         exists (ONode (ns_set_env ns (env_with_stop (n_env ns) true)) sa' sb), tr.
-        split; [rewrite Hph, Es; reflexivity|].
+        split; [rewrite Hph, Es; reflexivity|]. split; [exact Hc|].
         exists (ns_set_env ns (env_with_stop (n_env ns) true)), sa', sb.
         split; [reflexivity|]. split; [exact Hbs|]. split; [reflexivity|].
         rewrite Hk, Ra. auto.
@@ -1275,27 +1411,30 @@ Proof.
       destruct Hrest as [Hown [Had [Hbd [Ha [Hb [Hsv [Hva Hvb]]]]]]].
       destruct (own_stop ns) eqn:Eown.
       * (* the own source is requested already: the children know *)
-        do 2 eexists. split; [reflexivity|].
+        do 2 eexists. split; [reflexivity|]. split; [reflexivity|].
         exists (ns_set_env ns (env_with_stop (n_env ns) true)), sa, sb.
         split; [reflexivity|]. split; [exact Hbs|]. split; [reflexivity|].
         rewrite Hk. cbv zeta. fold sg af pa pb. cbn [ns_set_env own_stop adone bdone saved va vb].
         rewrite Eown. split; [reflexivity|]. repeat (split; [assumption|]); assumption.
       * cbn [ns_set_own ns_set_env bdone adone].
         assert (Gb : exists sb' trb, (if bdone ns then (sb, [], None) else stop b sb) = (sb', trb, None) /\
+                       tcalls trb = [] /\
                        (done_by (D b bs t0 pb) n = false -> Inv b bs t0 pb n true sb')).
         { destruct (bdone ns) eqn:Ebd.
-          - exists sb, []. split; [reflexivity|]. intros Hc. rewrite Hc in Hbd. discriminate.
-          - symmetry in Hbd. destruct (IHb Hnb _ _ _ _ _ (Hb Hbd)) as [sb' [trb [Es Hb']]].
-            exists sb', trb. split; [exact Es|]. intros _. exact Hb'. }
+          - exists sb, []. split; [reflexivity|]. split; [reflexivity|]. intros Hc. rewrite Hc in Hbd. discriminate.
+          - symmetry in Hbd. destruct (IHb Hnb _ _ _ _ _ (Hb Hbd)) as [sb' [trb [Es [Hc Hb']]]].
+            exists sb', trb. split; [exact Es|]. split; [exact Hc|]. intros _. exact Hb'. }
         assert (Ga : exists sa' tra, (if adone ns then (sa, [], None) else stop a sa) = (sa', tra, None) /\
+                       tcalls tra = [] /\
                        (done_by (D a bs t0 pa) n = false -> Inv a bs t0 pa n true sa')).
         { destruct (adone ns) eqn:Ead.
-          - exists sa, []. split; [reflexivity|]. intros Hc. rewrite Hc in Had. discriminate.
-          - symmetry in Had. destruct (IHa Hna _ _ _ _ _ (Ha Had)) as [sa' [tra [Es Ha']]].
-            exists sa', tra. split; [exact Es|]. intros _. exact Ha'. }
-        destruct Gb as [sb' [trb [Eb Hb']]]. destruct Ga as [sa' [tra [Ea Ha']]].
+          - exists sa, []. split; [reflexivity|]. split; [reflexivity|]. intros Hc. rewrite Hc in Had. discriminate.
+          - symmetry in Had. destruct (IHa Hna _ _ _ _ _ (Ha Had)) as [sa' [tra [Es [Hc Ha']]]].
+            exists sa', tra. split; [exact Es|]. split; [exact Hc|]. intros _. exact Ha'. }
+        destruct Gb as [sb' [trb [Eb [Hcb Hb']]]]. destruct Ga as [sa' [tra [Ea [Hca Ha']]]].
         rewrite Eb. cbv beta iota. cbn [ns_set_own ns_set_env bdone adone]. rewrite Ea. cbv beta iota.
         unfold finish_conc. do 2 eexists. split; [reflexivity|].
+        split; [rewrite tcalls_app, Hcb, Hca; reflexivity|].
         eexists _, sa', sb'. split; [reflexivity|].
         cbn [ns_set_own ns_set_env n_env own_stop adone bdone saved va vb env_with_stop e_bound e_stopped].
         split; [exact Hbs|]. split; [reflexivity|].
@@ -1685,10 +1824,10 @@ Qed.
 
 End PlanCoh.
 
-Definition res_ok (P : outcome -> Prop) (Q : ost -> Prop) (x : res) : Prop :=
+Definition res_ok (C : list tev -> Prop) (P : outcome -> Prop) (Q : ost -> Prop) (x : res) : Prop :=
   match x with
-  | (st, _, Some o) => st = OFin /\ P o
-  | (st, _, None) => Q st
+  | (st, tr, Some o) => C tr /\ st = OFin /\ P o
+  | (st, tr, None) => C tr /\ Q st
   end.
 
 Lemma un_env_bound : forall k en, e_bound (un_env k en) = e_bound en.
@@ -1768,19 +1907,20 @@ Qed.
 
 Lemma start_spec : forall e, no_leafn e = true -> forall bs t0 ts en,
   e_bound en = bs -> e_stopped en = stopped_now ts (2 * t0) ->
-  res_ok (fun o => D e bs t0 ts = Some (o, t0))
+  res_ok (fun tr => tcalls tr = calls_at script e bs t0 ts t0)
+         (fun o => D e bs t0 ts = Some (o, t0))
          (fun st => done_by (D e bs t0 ts) t0 = false /\ Inv e bs t0 ts t0 (e_stopped en) st)
          (start e en).
 Proof.
   induction e as [v|x| |m|id|id|k s IHs|k a IHa b IHb]; intros Hn bs t0 ts en Hbs Hst.
-  - split; reflexivity.
-  - split; reflexivity.
-  - split; reflexivity.
-  - cbn [start]. split; [reflexivity|]. cbn [denote]. rewrite Hbs. reflexivity.
+  - split; [reflexivity|]. split; reflexivity.
+  - split; [reflexivity|]. split; reflexivity.
+  - split; [reflexivity|]. split; reflexivity.
+  - cbn [start]. split; [reflexivity|]. split; [reflexivity|]. cbn [denote]. rewrite Hbs. reflexivity.
   - assert (Hp : done_by (D (Leaf id) bs t0 ts) t0 = false).
     { cbn [denote]. destruct (first_leaf_event script id t0) as [[o t]|] eqn:E; [|reflexivity].
       apply fle_some in E. simpl. apply Nat.leb_gt. lia. }
-    cbn [start]. destruct (e_stopped en); (split; [exact Hp|eexists; reflexivity]).
+    cbn [start]. destruct (e_stopped en); (split; [reflexivity|]); (split; [exact Hp|eexists; reflexivity]).
   - discriminate Hn.
   - (* unary adaptors *)
     rewrite start_Un.
@@ -1789,42 +1929,67 @@ Proof.
       by (rewrite un_env_stopped, stopped_now_un_ts, Hst; reflexivity).
     generalize (IHs Hn bs t0 (un_ts k ts) (un_env k en) Hb' Hs').
     destruct (start s (un_env k en)) as [[sc trs] [o1|]].
-    + pose proof (un_result_out k o1) as Ho. destruct (un_result k o1) as [tr2 o']. simpl in Ho. subst o'.
-      unfold res_ok. intros [_ Hd]. split; [reflexivity|]. rewrite denote_un, Hd. reflexivity.
-    + unfold res_ok. intros [Hp HI]. split; [rewrite done_by_un; exact Hp|].
-      exists (mk_nst PFirst en), sc. split; [reflexivity|]. rewrite un_env_stopped in HI. exact HI.
+    + pose proof (un_result_out k o1) as Ho. pose proof (un_result_calls k o1) as Hcu.
+      destruct (un_result k o1) as [tr2 o']. simpl in Ho, Hcu. subst o'.
+      unfold res_ok. intros [Hc [_ Hd]].
+      split; [rewrite tcalls_app, Hc, Hcu, calls_un, Hd, Nat.eqb_refl; reflexivity|].
+      split; [reflexivity|]. rewrite denote_un, Hd. reflexivity.
+    + unfold res_ok. intros [Hc [Hp HI]]. split.
+      * rewrite calls_un, Hc. destruct (D s bs t0 (un_ts k ts)) as [[o1 t1]|]; [|rewrite app_nil_r; reflexivity].
+        simpl in Hp. apply Nat.leb_gt in Hp.
+        destruct (t1 =? t0) eqn:E; [apply Nat.eqb_eq in E; lia|rewrite app_nil_r; reflexivity].
+      * split; [rewrite done_by_un; exact Hp|].
+        exists (mk_nst PFirst en), sc. split; [reflexivity|]. rewrite un_env_stopped in HI. exact HI.
   - cbn [no_leafn] in Hn. apply andb_true_iff in Hn. destruct Hn as [Hna Hnb].
     destruct (is_seq k) eqn:Hk.
     + (* sequential kinds *)
       rewrite (start_Bin_seq _ _ _ _ Hk).
       generalize (IHa Hna bs t0 ts en Hbs Hst).
       destruct (start a en) as [[sa tra] [oa|]].
-      * unfold res_ok at 1. intros [_ Ra].
+      * unfold res_ok at 1. intros [Hca [_ Ra]].
         pose proof (after_first_spec k en oa) as AF. rewrite Hbs in AF.
+        assert (Elt : (t0 <? t0) = false) by (apply Nat.ltb_irrefl).
         destruct (seq_next k bs oa) as [[bs' sv]|] eqn:Hsn.
         -- destruct AF as [en2 [E1 [E2 E3]]]. rewrite E1.
            assert (Hst2 : e_stopped en2 = stopped_now ts (2 * t0)) by (rewrite E3; exact Hst).
            generalize (IHb Hnb bs' t0 ts en2 E2 Hst2).
+           assert (Hcc : forall trb, tcalls trb = calls_at script b bs' t0 ts t0 ->
+                         tcalls (tra ++ trb) = calls_at script (Bin k a b) bs t0 ts t0).
+           { intros trb Hcb. rewrite tcalls_app, Hca, Hcb, (calls_seq _ _ _ _ _ _ _ _ Hk), Ra, Elt, Hsn, Nat.leb_refl.
+             reflexivity. }
            destruct (start b en2) as [[sb trb] [ob|]]; unfold res_ok.
-           ++ intros [_ Rb]. split; [reflexivity|].
+           ++ intros [Hcb [_ Rb]]. split; [exact (Hcc _ Hcb)|]. split; [reflexivity|].
               rewrite (denote_seq _ _ _ _ _ _ _ Hk), Ra, Hsn, Rb. reflexivity.
-           ++ intros [Hp HI]. split.
+           ++ intros [Hcb [Hp HI]]. split; [exact (Hcc _ Hcb)|]. split.
               ** rewrite (done_by_seq_b _ _ _ _ _ _ _ _ _ _ _ _ Hk Ra Hsn). exact Hp.
               ** exists (ns_set_saved (mk_nst PSecond en) sv), OFin, sb.
                  split; [reflexivity|]. split; [exact Hbs|]. split; [reflexivity|].
                  rewrite Hk, Ra, Nat.leb_refl, Hsn. split; [discriminate|]. split; [reflexivity|].
                  rewrite E3 in HI. exact HI.
-        -- rewrite AF. split; [reflexivity|].
+        -- rewrite AF. split; [rewrite Hca, (calls_seq _ _ _ _ _ _ _ _ Hk), Ra, Elt, Hsn, app_nil_r; reflexivity|].
+           split; [reflexivity|].
            rewrite (denote_seq _ _ _ _ _ _ _ Hk), Ra, Hsn. reflexivity.
-      * unfold res_ok. intros [Hp HI]. split; [apply done_by_seq_a; assumption|].
-        exists (mk_nst PFirst en), sa, OFin.
-        split; [reflexivity|]. split; [exact Hbs|]. split; [reflexivity|]. rewrite Hk.
-        destruct (D a bs t0 ts) as [[oa t1]|]; [simpl in Hp; rewrite Hp|]; (split; [reflexivity|exact HI]).
+      * unfold res_ok. intros [Hca [Hp HI]]. split.
+        -- rewrite Hca, (calls_seq _ _ _ _ _ _ _ _ Hk).
+           destruct (D a bs t0 ts) as [[oa t1]|]; [|reflexivity].
+           simpl in Hp. apply Nat.leb_gt in Hp.
+           assert (E1 : (t1 <? t0) = false) by (apply Nat.ltb_ge; lia).
+           assert (E2 : (t1 <=? t0) = false) by (apply Nat.leb_gt; lia).
+           rewrite E1, E2. destruct (seq_next k bs oa) as [[bs' sv]|]; rewrite app_nil_r; reflexivity.
+        -- split; [apply done_by_seq_a; assumption|].
+           exists (mk_nst PFirst en), sa, OFin.
+           split; [reflexivity|]. split; [exact Hbs|]. split; [reflexivity|]. rewrite Hk.
+           destruct (D a bs t0 ts) as [[oa t1]|]; [simpl in Hp; rewrite Hp|]; (split; [reflexivity|exact HI]).
     + (* when_all / stop_when *)
       rewrite (start_Bin_conc _ _ _ _ Hk). cbv zeta.
       set (ns0 := ns_set_own (ns_set_reg (mk_nst PBoth en) (negb (e_stopped en))) (e_stopped en)).
       change (own_stop ns0) with (e_stopped en).
       pose proof (pS1 k a b bs t0 ts Hna Hnb) as S1. pose proof (pS2 k a b bs t0 ts Hna Hnb) as S2.
+      assert (Hcc : forall tra trb, tcalls tra = calls_at script a bs t0 (p_pa k a b bs t0 ts) t0 ->
+                      tcalls trb = calls_at script b bs t0 (p_pb k a b bs t0 ts) t0 ->
+                      tcalls (tra ++ trb) = calls_at script (Bin k a b) bs t0 ts t0).
+      { intros tra trb Hca Hcb. rewrite tcalls_app, Hca, Hcb, (calls_conc _ _ _ _ _ _ _ _ Hk). cbv zeta.
+        rewrite !until_lower; [reflexivity| |]; intros o t Hd; (eapply denote_ge; [|exact Hd]; assumption). }
       set (af := p_af k a b bs t0 ts) in *. set (pa := p_pa k a b bs t0 ts) in *.
       set (pb := p_pb k a b bs t0 ts) in *.
       assert (HCI0 : CI k af (e_stopped en) None None ns0 bs) by (rewrite <- Hbs; apply CI_init).
@@ -1833,7 +1998,7 @@ Proof.
       generalize (IHa Hna bs t0 pa (env_own en (e_stopped en)) Hbs Hsa).
       destruct (start a (env_own en (e_stopped en))) as [[sa tra] [oa|]]; unfold res_ok at 1.
       * (* a completes inline *)
-        intros [_ Ra]. change (D a bs t0 pa) with (p_ra k a b bs t0 ts) in Ra.
+        intros [Hca [_ Ra]]. change (D a bs t0 pa) with (p_ra k a b bs t0 ts) in Ra.
         destruct (CI_child_a k af _ None ns0 bs oa Hk HCI0 ltac:(intros; discriminate))
           as [ns1 [fin1 [E1 [HCI1 _]]]].
         rewrite E1. cbv beta iota.
@@ -1844,17 +2009,18 @@ Proof.
         generalize (IHb Hnb bs t0 pb (env_own en (own_stop ns1)) Hbs Hsb).
         destruct (start b (env_own en (own_stop ns1))) as [[sb trb] [ob|]]; unfold res_ok at 1.
         -- (* both inline *)
-           intros [_ Rb]. change (D b bs t0 pb) with (p_rb k a b bs t0 ts) in Rb.
+           intros [Hcb [_ Rb]]. change (D b bs t0 pb) with (p_rb k a b bs t0 ts) in Rb.
            assert (ORD : forall oa', Some oa = Some oa' -> triggers k oa' = true -> triggers k ob = true -> af = true).
            { intros oa' E Ta Tb. inversion E; subst oa'. exact (pord_start k a b bs t0 ts Hna Hnb oa ob Ra Ta Rb Tb). }
            destruct (CI_child_b k af _ (Some oa) ns1 bs ob Hk HCI1 ORD) as [ns2 [fin2 [E2 [HCI2 Hf2]]]].
-           rewrite E2. cbv beta iota. rewrite Hf2. unfold finish_conc, res_ok.
+           rewrite E2. cbv beta iota. rewrite Hf2. unfold finish_conc, res_ok. cbn [andb].
+           split; [rewrite app_nil_r; exact (Hcc _ _ Hca Hcb)|].
            split; [reflexivity|].
            rewrite (denote_conc_p script _ _ _ _ _ _ Hk), Ra, Rb. cbn [conc_result]. rewrite Nat.max_id.
            rewrite (CI_final _ _ _ _ _ _ _ Hk HCI2). rewrite stopped_by_now, <- Hst. reflexivity.
         -- (* b pending *)
-           intros [Hpb HIb]. change (D b bs t0 pb) with (p_rb k a b bs t0 ts) in Hpb.
-           unfold res_ok. split.
+           intros [Hcb [Hpb HIb]]. change (D b bs t0 pb) with (p_rb k a b bs t0 ts) in Hpb.
+           unfold res_ok. split; [exact (Hcc _ _ Hca Hcb)|]. split.
            ++ rewrite (done_by_conc script _ _ _ _ _ _ _ Hk), Hpb. apply andb_false_r.
            ++ apply (inv_conc_iff script _ _ _ _ _ _ _ _ _ Hk). exists ns1, sa, sb.
               split; [reflexivity|].
@@ -1862,14 +2028,14 @@ Proof.
               rewrite (proj2 (done_val_none _ _) Hpb).
               split; [exact HCI1|]. split; [intros; discriminate|intros _; exact HIb].
       * (* a pending *)
-        intros [Hpa HIa]. change (D a bs t0 pa) with (p_ra k a b bs t0 ts) in Hpa.
+        intros [Hca [Hpa HIa]]. change (D a bs t0 pa) with (p_ra k a b bs t0 ts) in Hpa.
         cbv beta iota. change (own_stop ns0) with (e_stopped en).
         assert (Hsb : e_stopped (env_own en (e_stopped en)) = stopped_now pb (2 * t0)).
         { cbn [env_own e_stopped]. rewrite S2, (trig_done_pending _ _ _ Hpa), orb_false_r. exact Hst. }
         generalize (IHb Hnb bs t0 pb (env_own en (e_stopped en)) Hbs Hsb).
         destruct (start b (env_own en (e_stopped en))) as [[sb trb] [ob|]]; unfold res_ok at 1.
         -- (* b inline, a still running *)
-           intros [_ Rb]. change (D b bs t0 pb) with (p_rb k a b bs t0 ts) in Rb.
+           intros [Hcb [_ Rb]]. change (D b bs t0 pb) with (p_rb k a b bs t0 ts) in Rb.
            destruct (CI_child_b k af _ None ns0 bs ob Hk HCI0 ltac:(intros; discriminate))
              as [ns2 [fin2 [E2 [HCI2 Hf2]]]].
            rewrite E2. cbv beta iota. rewrite Hf2.
@@ -1882,20 +2048,23 @@ Proof.
               change (own_stop ns0) with (e_stopped en) in Eo.
               change (e_stopped (env_own en (e_stopped en))) with (e_stopped en) in HIa.
               rewrite Eo in HIa.
-              destruct (stop_spec script a Hna _ _ _ _ _ HIa) as [sa' [tra2 [Es HIa']]].
-              rewrite Es. unfold res_ok. split; [exact Hpe|].
+              destruct (stop_spec script a Hna _ _ _ _ _ HIa) as [sa' [tra2 [Es [Hcs HIa']]]].
+              rewrite Es. unfold res_ok.
+              split; [rewrite app_assoc, tcalls_app, Hcs, app_nil_r; exact (Hcc _ _ Hca Hcb)|].
+              split; [exact Hpe|].
               apply (inv_conc_iff script _ _ _ _ _ _ _ _ _ Hk). exists ns2, sa', OFin.
               split; [reflexivity|].
               rewrite (proj2 (done_val_none _ _) Hpa). rewrite (done_val_of _ _ _ _ Rb (le_n t0)).
               split; [exact HCI2|]. split; [intros _; rewrite Hown2, Eo'; exact HIa'|intros; discriminate].
-           ++ apply newly_false_own in Enew. unfold res_ok. split; [exact Hpe|].
+           ++ apply newly_false_own in Enew. unfold res_ok.
+              split; [exact (Hcc _ _ Hca Hcb)|]. split; [exact Hpe|].
               apply (inv_conc_iff script _ _ _ _ _ _ _ _ _ Hk). exists ns2, sa, OFin.
               split; [reflexivity|].
               rewrite (proj2 (done_val_none _ _) Hpa). rewrite (done_val_of _ _ _ _ Rb (le_n t0)).
               split; [exact HCI2|]. split; [intros _; rewrite Hown2, Enew; exact HIa|intros; discriminate].
         -- (* both pending *)
-           intros [Hpb HIb]. change (D b bs t0 pb) with (p_rb k a b bs t0 ts) in Hpb.
-           unfold res_ok. split.
+           intros [Hcb [Hpb HIb]]. change (D b bs t0 pb) with (p_rb k a b bs t0 ts) in Hpb.
+           unfold res_ok. split; [exact (Hcc _ _ Hca Hcb)|]. split.
            ++ rewrite (done_by_conc script _ _ _ _ _ _ _ Hk), Hpa; reflexivity.
            ++ apply (inv_conc_iff script _ _ _ _ _ _ _ _ _ Hk). exists ns0, sa, sb.
               split; [reflexivity|].
@@ -1930,9 +2099,13 @@ Notation p_rb := (p_rb script).
 Definition step_ok (e : sexpr) (bs : list Z) (t0 : nat) (ts : option nat) (n : nat) (F : bool) (st : ost)
            (x : res * bool) : Prop :=
   match x with
-  | ((st', _, Some o'), hit) => hit = true /\ st' = OFin /\ D e bs t0 ts = Some (o', S n)
-  | ((st', _, None), hit) =>
-      done_by (D e bs t0 ts) (S n) = false /\ Inv e bs t0 ts (S n) F st' /\ (hit = false -> st' = st)
+  | ((st', tr, Some o'), hit) =>
+      tcalls tr = calls_at script e bs t0 ts (S n) /\
+      hit = true /\ st' = OFin /\ D e bs t0 ts = Some (o', S n)
+  | ((st', tr, None), hit) =>
+      tcalls tr = calls_at script e bs t0 ts (S n) /\
+      done_by (D e bs t0 ts) (S n) = false /\ Inv e bs t0 ts (S n) F st' /\
+      (hit = false -> st' = st /\ tr = [])
   end.
 
 (* a concurrent node whose children's completion status does not change *)
@@ -1963,11 +2136,12 @@ Proof.
   - (* a leaf *)
     destruct HI as [seen ->]. cbn [leafev]. cbn [denote] in Hp.
     destruct (Nat.eqb id id') eqn:E.
-    + apply Nat.eqb_eq in E. subst id'. unfold step_ok. split; [reflexivity|]. split; [reflexivity|].
+    + apply Nat.eqb_eq in E. subst id'. unfold step_ok. split; [reflexivity|].
+      split; [reflexivity|]. split; [reflexivity|].
       cbn [denote]. apply fle_hit; assumption.
-    + apply Nat.eqb_neq in E. unfold step_ok. split.
+    + apply Nat.eqb_neq in E. unfold step_ok. split; [reflexivity|]. split.
       * cbn [denote]. eapply fle_miss; [exact Hp|exact Hev|]. intro Hc; apply E; symmetry; exact Hc.
-      * split; [eexists; reflexivity|reflexivity].
+      * split; [eexists; reflexivity|split; reflexivity].
   - (* unary adaptors *)
     destruct HI as [ns [sc [-> Hs]]]. rewrite leafev_Un.
     assert (HF1' : un_flag k F = stopped_now (un_ts k ts) (2 * n + 1))
@@ -1977,10 +2151,18 @@ Proof.
     rewrite done_by_un in Hp.
     generalize (IHs Hn Hnd bs t0 (un_ts k ts) n (un_flag k F) sc id o Hle Hev HF1' HF2' Hp Hs).
     destruct (leafev s sc id o) as [[[sc' trs] [oc|]] hit]; unfold step_ok.
-    + pose proof (un_result_out k oc) as Ho. destruct (un_result k oc) as [tr2 o']. simpl in Ho. subst o'.
-      intros [Hh [_ Hd]]. split; [exact Hh|]. split; [reflexivity|]. rewrite denote_un, Hd. reflexivity.
-    + intros [Hp1 [HI1 Hsame]]. split; [rewrite done_by_un; exact Hp1|].
-      split; [exists ns, sc'; split; [reflexivity|exact HI1]|intros Hh; rewrite (Hsame Hh); reflexivity].
+    + pose proof (un_result_out k oc) as Ho. pose proof (un_result_calls k oc) as Hcu.
+      destruct (un_result k oc) as [tr2 o']. simpl in Ho, Hcu. subst o'.
+      intros [Hc [Hh [_ Hd]]].
+      split; [rewrite tcalls_app, Hc, Hcu, calls_un, Hd, Nat.eqb_refl; reflexivity|].
+      split; [exact Hh|]. split; [reflexivity|]. rewrite denote_un, Hd. reflexivity.
+    + intros [Hc [Hp1 [HI1 Hsame]]]. split.
+      * rewrite calls_un, Hc. destruct (D s bs t0 (un_ts k ts)) as [[o1 t1]|]; [|rewrite app_nil_r; reflexivity].
+        simpl in Hp1. apply Nat.leb_gt in Hp1.
+        destruct (t1 =? S n) eqn:E; [apply Nat.eqb_eq in E; lia|rewrite app_nil_r; reflexivity].
+      * split; [rewrite done_by_un; exact Hp1|].
+        split; [exists ns, sc'; split; [reflexivity|exact HI1]|].
+        intros Hh. destruct (Hsame Hh) as [-> ->]. split; reflexivity.
   - cbn [no_leafn] in Hn. apply andb_true_iff in Hn. destruct Hn as [Hna Hnb].
     cbn [leaf_ids] in Hnd. destruct (nodup_app _ _ Hnd) as [Hnda [Hndb Hdisj]].
     destruct (is_seq k) eqn:Hk.
@@ -2016,29 +2198,43 @@ Proof.
       { intros [Hph Ha] Hpa. rewrite Hph.
         generalize (IHa Hna Hnda bs t0 ts n F sa id o Hle Hev HF1 HF2 Hpa Ha).
         destruct (leafev a sa id o) as [[[sa' tra] [oa|]] hit]; unfold step_ok at 1.
-        - intros [Hh [_ Ra]].
+        - intros [Hca [Hh [_ Ra]]].
           pose proof (after_first_spec k (n_env ns) oa) as AF. rewrite Hbs in AF.
+          assert (Elt : (S n <? S n) = false) by (apply Nat.ltb_irrefl).
           destruct (seq_next k bs oa) as [[bs' sv]|] eqn:Hsn.
           + destruct AF as [en2 [E1 [E2 E3]]]. rewrite E1.
             assert (Hst2 : e_stopped en2 = stopped_now ts (2 * S n)).
             { rewrite E3, Hst, HF1, <- HF2. f_equal. lia. }
+            assert (Hcc : forall trb, tcalls trb = calls_at script b bs' (S n) ts (S n) ->
+                          tcalls (tra ++ trb) = calls_at script (Bin k a b) bs t0 ts (S n)).
+            { intros trb Hcb. rewrite tcalls_app, Hca, Hcb, (calls_seq _ _ _ _ _ _ _ _ Hk), Ra, Elt, Hsn, Nat.leb_refl.
+              reflexivity. }
             generalize (start_spec script b Hnb bs' (S n) ts en2 E2 Hst2).
             destruct (start b en2) as [[sb' trb] [ob|]]; unfold res_ok, step_ok.
-            * intros [_ Rb]. split; [exact Hh|]. split; [reflexivity|].
+            * intros [Hcb [_ Rb]]. split; [exact (Hcc _ Hcb)|]. split; [exact Hh|]. split; [reflexivity|].
               rewrite (denote_seq _ _ _ _ _ _ _ Hk), Ra, Hsn, Rb. reflexivity.
-            * intros [Hpb HIb]. split; [rewrite (done_by_seq_b _ _ _ _ _ _ _ _ _ _ _ _ Hk Ra Hsn); exact Hpb|].
+            * intros [Hcb [Hpb HIb]]. split; [exact (Hcc _ Hcb)|].
+              split; [rewrite (done_by_seq_b _ _ _ _ _ _ _ _ _ _ _ _ Hk Ra Hsn); exact Hpb|].
               split; [|intros Hc; rewrite Hh in Hc; discriminate].
               exists (ns_set_saved (ns_set_ph ns PSecond) sv), OFin, sb'.
               split; [reflexivity|]. split; [exact Hbs|]. split; [exact Hst|].
               rewrite Hk, Ra, Nat.leb_refl, Hsn. split; [discriminate|]. split; [reflexivity|].
               rewrite E3, Hst in HIb. exact HIb.
-          + rewrite AF. unfold step_ok. split; [exact Hh|]. split; [reflexivity|].
+          + rewrite AF. unfold step_ok.
+            split; [rewrite Hca, (calls_seq _ _ _ _ _ _ _ _ Hk), Ra, Elt, Hsn, app_nil_r; reflexivity|].
+            split; [exact Hh|]. split; [reflexivity|].
             rewrite (denote_seq _ _ _ _ _ _ _ Hk), Ra, Hsn. reflexivity.
-        - intros [Hpa' [HIa Hsame]]. unfold step_ok.
-          split; [apply done_by_seq_a; assumption|].
-          split; [|intros Hh; rewrite (Hsame Hh); reflexivity].
-          exists ns, sa', sb. split; [reflexivity|]. split; [exact Hbs|]. split; [exact Hst|]. rewrite Hk.
-          destruct (D a bs t0 ts) as [[oa t1]|]; [simpl in Hpa'; rewrite Hpa'|]; (split; [exact Hph|exact HIa]). }
+        - intros [Hca [Hpa' [HIa Hsame]]]. unfold step_ok. split.
+          + rewrite Hca, (calls_seq _ _ _ _ _ _ _ _ Hk).
+            destruct (D a bs t0 ts) as [[oa t1]|]; [|reflexivity].
+            simpl in Hpa'. apply Nat.leb_gt in Hpa'.
+            assert (E1 : (t1 <? S n) = false) by (apply Nat.ltb_ge; lia).
+            assert (E2 : (t1 <=? S n) = false) by (apply Nat.leb_gt; lia).
+            rewrite E1, E2. destruct (seq_next k bs oa) as [[bs' sv]|]; rewrite app_nil_r; reflexivity.
+          + split; [apply done_by_seq_a; assumption|].
+            split; [|intros Hh; destruct (Hsame Hh) as [-> ->]; split; reflexivity].
+            exists ns, sa', sb. split; [reflexivity|]. split; [exact Hbs|]. split; [exact Hst|]. rewrite Hk.
+            destruct (D a bs t0 ts) as [[oa t1]|]; [simpl in Hpa'; rewrite Hpa'|]; (split; [exact Hph|exact HIa]). }
       destruct (D a bs t0 ts) as [[oa t1]|] eqn:Ra; [|exact (G1 Hrest eq_refl)].
       destruct (t1 <=? n) eqn:Et; [|exact (G1 Hrest Et)].
       destruct (seq_next k bs oa) as [[bs' sv]|] eqn:Hsn; [|contradiction].
@@ -2046,13 +2242,16 @@ Proof.
       rewrite (done_by_seq_b script _ _ _ _ _ _ _ _ _ _ _ Hk Ra Hsn) in Hp.
       generalize (IHb Hnb Hndb bs' t1 ts n F sb id o Et Hev HF1 HF2 Hp Hb).
       assert (Et' : (t1 <=? S n) = true) by (apply Nat.leb_le; lia).
+      assert (Et'' : (t1 <? S n) = true) by (apply Nat.ltb_lt; lia).
+      assert (Hcc : calls_at script (Bin k a b) bs t0 ts (S n) = calls_at script b bs' t1 ts (S n)).
+      { rewrite (calls_seq _ _ _ _ _ _ _ _ Hk), Ra, Et', Et'', Hsn. reflexivity. }
       destruct (ph ns) eqn:Eph; [contradiction| |];
         (destruct (leafev b sb id o) as [[[sb' trb] [ob|]] hit]; unfold step_ok;
-         [ intros [Hh [_ Rb]]; split; [exact Hh|]; split; [reflexivity|];
+         [ intros [Hcb [Hh [_ Rb]]]; split; [rewrite Hcc; exact Hcb|]; split; [exact Hh|]; split; [reflexivity|];
            rewrite (denote_seq _ _ _ _ _ _ _ Hk), Ra, Hsn, Rb, Hsv; reflexivity
-         | intros [Hp1 [HI1 Hsame]];
+         | intros [Hcb [Hp1 [HI1 Hsame]]]; split; [rewrite Hcc; exact Hcb|];
            split; [rewrite (done_by_seq_b script _ _ _ _ _ _ _ _ _ _ _ Hk Ra Hsn); exact Hp1|];
-           split; [|intros Hh; rewrite (Hsame Hh); reflexivity];
+           split; [|intros Hh; destruct (Hsame Hh) as [-> ->]; split; reflexivity];
            exists ns, sa, sb'; split; [reflexivity|]; split; [exact Hbs|]; split; [exact Hst|];
            rewrite Hk, Ra, Et', Hsn; split; [rewrite Eph; discriminate|]; split; [exact Hsv|exact HI1] ]).
     + (* when_all / stop_when *)
@@ -2060,6 +2259,10 @@ Proof.
       destruct HI as [ns [sa [sb [-> [HCI [HIa HIb]]]]]].
       rewrite (done_by_conc script _ _ _ _ _ _ _ Hk) in Hp.
       rewrite (leafev_Bin_conc _ _ _ _ _ _ _ _ Hk).
+      pose proof (calls_conc script k a b bs t0 ts (S n) Hk) as HCC. cbv zeta in HCC.
+      fold (DenoteProofs.p_sg script k a b bs t0 ts) in HCC. fold (p_af k a b bs t0 ts) in HCC.
+      fold (p_pa k a b bs t0 ts) in HCC. fold (p_pb k a b bs t0 ts) in HCC.
+      fold (p_ra k a b bs t0 ts) in HCC. fold (p_rb k a b bs t0 ts) in HCC.
       set (af := p_af k a b bs t0 ts) in *. set (pa := p_pa k a b bs t0 ts) in *.
       set (pb := p_pb k a b bs t0 ts) in *.
       set (ra := p_ra k a b bs t0 ts) in *. set (rb := p_rb k a b bs t0 ts) in *.
@@ -2071,6 +2274,26 @@ Proof.
       { destruct HCI as (_ & _ & C3 & _). rewrite C3, !trig_done_val. reflexivity. }
       assert (HFS : stopped_by ts (S n) = F).
       { rewrite stopped_by_now, HF1, <- HF2. f_equal. lia. }
+      (* the calls of a child that is finished or that the event is not for *)
+      assert (Na : ~ In id (leaf_ids a) \/ done_by ra n = true ->
+                   until ra (S n) (calls_at script a bs t0 pa (S n)) = []).
+      { intros [Hc|Hc]; [rewrite (calls_quiet script a Hna _ _ _ _ _ _ Hev Hc Hle); apply until_nil
+                        |apply until_done; exact Hc]. }
+      assert (Nb : ~ In id (leaf_ids b) \/ done_by rb n = true ->
+                   until rb (S n) (calls_at script b bs t0 pb (S n)) = []).
+      { intros [Hc|Hc]; [rewrite (calls_quiet script b Hnb _ _ _ _ _ _ Hev Hc Hle); apply until_nil
+                        |apply until_done; exact Hc]. }
+      assert (CA : forall tra, done_by ra n = false -> ~ In id (leaf_ids b) ->
+                     tcalls tra = calls_at script a bs t0 pa (S n) ->
+                     tcalls tra = calls_at script (Bin k a b) bs t0 ts (S n)).
+      { intros tra Da Hc Hca. rewrite HCC, (Nb (or_introl Hc)), (until_pending _ _ _ Da), app_nil_r. exact Hca. }
+      assert (CB : forall trb, done_by rb n = false -> ~ In id (leaf_ids a) ->
+                     tcalls trb = calls_at script b bs t0 pb (S n) ->
+                     tcalls trb = calls_at script (Bin k a b) bs t0 ts (S n)).
+      { intros trb Db Hc Hcb. rewrite HCC, (Na (or_introl Hc)), (until_pending _ _ _ Db). exact Hcb. }
+      assert (CN : ~ In id (leaf_ids a) \/ done_by ra n = true -> ~ In id (leaf_ids b) \/ done_by rb n = true ->
+                   tcalls [] = calls_at script (Bin k a b) bs t0 ts (S n)).
+      { intros H1 H2. rewrite HCC, (Na H1), (Nb H2). reflexivity. }
       (* the generic "b is not touched" part of the machine *)
       assert (Gb : ~ In id (leaf_ids b) \/ done_by rb n = true ->
                    (if bdone ns then (sb, [], None, false) else leafev b sb id o) = ((sb, [], None), false)).
@@ -2105,9 +2328,10 @@ Proof.
         destruct (done_by ra n) eqn:Da.
         -- (* a has finished already: nothing happens *)
            simpl in Hp. rewrite (Ga (or_intror eq_refl)). cbv beta iota. unfold step_ok.
+           split; [exact (CN (or_intror eq_refl) (or_introl Hninb))|].
            split; [rewrite (done_by_conc script _ _ _ _ _ _ _ Hk); fold rb;
                    unfold quiet in Qb; rewrite Qb, Hp; apply andb_false_r|].
-           split; [|reflexivity].
+           split; [|split; reflexivity].
            apply inv_conc_keep; try assumption.
            ++ apply quiet_done. exact Da.
            ++ fold ra. rewrite Da. intros; discriminate.
@@ -2124,7 +2348,8 @@ Proof.
                            (HIa (proj2 (done_val_none _ _) Da))).
            destruct (leafev a sa id o) as [[[sa' tra] [oa|]] hita]; unfold step_ok at 1.
            ++ (* a completes now *)
-              intros [Hh [Hsa' Ra]]. subst hita sa'. cbv beta iota. change (D a bs t0 pa) with ra in Ra.
+              intros [Hca [Hh [Hsa' Ra]]]. subst hita sa'. cbv beta iota. change (D a bs t0 pa) with ra in Ra.
+              pose proof (CA _ eq_refl Hninb Hca) as Hca'.
               rewrite (proj2 (done_val_none _ _) Da) in HCI.
               destruct (done_val rb n) as [ob|] eqn:Vb.
               ** (* b had finished: the node completes *)
@@ -2134,7 +2359,8 @@ Proof.
                  { intros ob' E _ Tb. inversion E; subst ob'.
                    exact (pord_a script k a b bs t0 ts Hna Hnb n oa ob tb Ra Rb Htb Tb). }
                  destruct (CI_child_a k af F (Some ob) ns bs oa Hk HCI ORD) as [ns1 [fin [E1 [HCI1 Hf]]]].
-                 rewrite E1. cbv beta iota. rewrite Hf. unfold finish_conc, step_ok.
+                 rewrite E1. cbv beta iota. rewrite Hf. unfold finish_conc, step_ok. cbn [andb].
+                 split; [rewrite app_nil_r; exact Hca'|].
                  split; [reflexivity|]. split; [reflexivity|].
                  rewrite (denote_conc_p script _ _ _ _ _ _ Hk). fold ra rb af. rewrite Ra, Rb.
                  cbn [conc_result]. replace (Nat.max (S n) tb) with (S n) by lia.
@@ -2156,30 +2382,35 @@ Proof.
                  destruct (triggers k oa && negb (own_stop ns)) eqn:Enew.
                  --- apply newly_true_own in Enew. destruct Enew as [Eo Eo'].
                      rewrite Eo in HIb'.
-                     destruct (stop_spec script b Hnb _ _ _ _ _ HIb') as [sb' [trb [Es HIb'']]].
-                     rewrite Es. unfold step_ok. split; [exact Hpe|]. split; [|intros; discriminate].
+                     destruct (stop_spec script b Hnb _ _ _ _ _ HIb') as [sb' [trb [Es [Hcs HIb'']]]].
+                     rewrite Es. unfold step_ok.
+                     split; [rewrite tcalls_app, Hcs, app_nil_r; exact Hca'|].
+                     split; [exact Hpe|]. split; [|intros; discriminate].
                      apply (inv_conc_iff script _ _ _ _ _ _ _ _ _ Hk). exists ns1, OFin, sb'.
                      split; [reflexivity|]. fold ra rb af pa pb. rewrite Va', Vb'.
                      split; [exact HCI1|]. split; [intros; discriminate|].
                      intros _. rewrite Hown1, Eo'. exact HIb''.
                  --- apply newly_false_own in Enew.
-                     unfold step_ok. split; [exact Hpe|]. split; [|intros; discriminate].
+                     unfold step_ok. split; [exact Hca'|]. split; [exact Hpe|]. split; [|intros; discriminate].
                      apply (inv_conc_iff script _ _ _ _ _ _ _ _ _ Hk). exists ns1, OFin, sb.
                      split; [reflexivity|]. fold ra rb af pa pb. rewrite Va', Vb'.
                      split; [exact HCI1|]. split; [intros; discriminate|].
                      intros _. rewrite Hown1, Enew. exact HIb'.
            ++ (* a does not complete *)
-              intros [Hpa' [HIa' Hsame]]. change (D a bs t0 pa) with ra in Hpa'.
+              intros [Hca [Hpa' [HIa' Hsame]]]. change (D a bs t0 pa) with ra in Hpa'.
+              pose proof (CA _ eq_refl Hninb Hca) as Hca'.
               assert (Hpe : done_by (D (Bin k a b) bs t0 ts) (S n) = false).
               { rewrite (done_by_conc script _ _ _ _ _ _ _ Hk). fold ra. rewrite Hpa'. reflexivity. }
               assert (Qa : quiet ra n) by (apply quiet_pending; assumption).
               destruct hita.
-              ** cbv beta iota. unfold step_ok. split; [exact Hpe|]. split; [|intros; discriminate].
+              ** cbv beta iota. unfold step_ok. split; [exact Hca'|].
+                 split; [exact Hpe|]. split; [|intros; discriminate].
                  apply inv_conc_keep; try assumption.
                  --- fold pa. intros _. exact HIa'.
                  --- fold rb pb. intros Db. exact (Adv_b Hninb Db).
-              ** rewrite (Hsame eq_refl) in *. cbv beta iota. unfold step_ok.
-                 split; [exact Hpe|]. split; [|reflexivity].
+              ** destruct (Hsame eq_refl) as [Es Et]. rewrite Es, Et in *. cbv beta iota. unfold step_ok.
+                 split; [exact Hca'|].
+                 split; [exact Hpe|]. split; [|split; reflexivity].
                  apply inv_conc_keep; try assumption.
                  --- fold pa. intros _. exact HIa'.
                  --- fold rb pb. intros Db. exact (Adv_b Hninb Db).
@@ -2189,9 +2420,10 @@ Proof.
         destruct (done_by rb n) eqn:Db.
         -- (* b has finished: nothing happens *)
            rewrite andb_true_r in Hp. rewrite (Gb (or_intror eq_refl)). cbv beta iota. unfold step_ok.
+           split; [exact (CN (or_introl Hnina) (or_intror eq_refl))|].
            split; [rewrite (done_by_conc script _ _ _ _ _ _ _ Hk); fold ra;
                    unfold quiet in Qa; rewrite Qa, Hp; reflexivity|].
-           split; [|reflexivity].
+           split; [|split; reflexivity].
            apply inv_conc_keep; try assumption.
            ++ apply quiet_done. exact Db.
            ++ fold ra pa. intros Da. exact (Adv_a Hnina Da).
@@ -2209,7 +2441,8 @@ Proof.
                               (HIb (proj2 (done_val_none _ _) Db))).
               destruct (leafev b sb id o) as [[[sb' trb] [ob|]] hitb]; unfold step_ok at 1.
               ** (* b completes now *)
-                 intros [Hh [Hsb' Rb]]. subst hitb sb'. change (D b bs t0 pb) with rb in Rb.
+                 intros [Hcb [Hh [Hsb' Rb]]]. subst hitb sb'. change (D b bs t0 pb) with rb in Rb.
+                 pose proof (CB _ eq_refl Hnina Hcb) as Hcb'.
                  rewrite (proj2 (done_val_none _ _) Db) in HCI.
                  destruct (done_val ra n) as [oa|] eqn:Va.
                  --- (* a had finished: the node completes *)
@@ -2219,7 +2452,8 @@ Proof.
                      { intros oa' E Ta Tb. inversion E; subst oa'.
                        exact (pord_b script k a b bs t0 ts Hna Hnb n oa ta ob Hle Ra Hta Ta Rb Tb). }
                      destruct (CI_child_b k af F (Some oa) ns bs ob Hk HCI ORD) as [ns1 [fin [E1 [HCI1 Hf]]]].
-                     rewrite E1. cbv beta iota. rewrite Hf. unfold finish_conc, step_ok.
+                     rewrite E1. cbv beta iota. rewrite Hf. unfold finish_conc, step_ok. cbn [andb].
+                     split; [rewrite app_nil_r; exact Hcb'|].
                      split; [reflexivity|]. split; [reflexivity|].
                      rewrite (denote_conc_p script _ _ _ _ _ _ Hk). fold ra rb af. rewrite Ra, Rb.
                      cbn [conc_result]. replace (Nat.max ta (S n)) with (S n) by lia.
@@ -2241,34 +2475,38 @@ Proof.
                      destruct (triggers k ob && negb (own_stop ns)) eqn:Enew.
                      +++ apply newly_true_own in Enew. destruct Enew as [Eo Eo'].
                          rewrite Eo in HIa'.
-                         destruct (stop_spec script a Hna _ _ _ _ _ HIa') as [sa' [tra [Es HIa'']]].
-                         rewrite Es. unfold step_ok. split; [exact Hpe|]. split; [|intros; discriminate].
+                         destruct (stop_spec script a Hna _ _ _ _ _ HIa') as [sa' [tra [Es [Hcs HIa'']]]].
+                         rewrite Es. unfold step_ok.
+                         split; [rewrite tcalls_app, Hcs, app_nil_r; exact Hcb'|].
+                         split; [exact Hpe|]. split; [|intros; discriminate].
                          apply (inv_conc_iff script _ _ _ _ _ _ _ _ _ Hk). exists ns1, sa', OFin.
                          split; [reflexivity|]. fold ra rb af pa pb. rewrite Va', Vb'.
                          split; [exact HCI1|]. split; [|intros; discriminate].
                          intros _. rewrite Hown1, Eo'. exact HIa''.
                      +++ apply newly_false_own in Enew.
-                         unfold step_ok. split; [exact Hpe|]. split; [|intros; discriminate].
+                         unfold step_ok. split; [exact Hcb'|]. split; [exact Hpe|]. split; [|intros; discriminate].
                          apply (inv_conc_iff script _ _ _ _ _ _ _ _ _ Hk). exists ns1, sa, OFin.
                          split; [reflexivity|]. fold ra rb af pa pb. rewrite Va', Vb'.
                          split; [exact HCI1|]. split; [|intros; discriminate].
                          intros _. rewrite Hown1, Enew. exact HIa'.
               ** (* b does not complete *)
-                 intros [Hpb' [HIb' Hsame]]. change (D b bs t0 pb) with rb in Hpb'.
+                 intros [Hcb [Hpb' [HIb' Hsame]]]. change (D b bs t0 pb) with rb in Hpb'.
+                 pose proof (CB _ eq_refl Hnina Hcb) as Hcb'.
                  assert (Hpe : done_by (D (Bin k a b) bs t0 ts) (S n) = false).
                  { rewrite (done_by_conc script _ _ _ _ _ _ _ Hk). fold rb. rewrite Hpb'. apply andb_false_r. }
                  assert (Qb : quiet rb n) by (apply quiet_pending; assumption).
-                 unfold step_ok. split; [exact Hpe|].
-                 split; [|intros Hh; rewrite (Hsame Hh); reflexivity].
+                 unfold step_ok. split; [exact Hcb'|]. split; [exact Hpe|].
+                 split; [|intros Hh; destruct (Hsame Hh) as [-> ->]; split; reflexivity].
                  apply inv_conc_keep; try assumption.
                  --- fold ra pa. intros Da. exact (Adv_a Hnina Da).
                  --- fold pb. intros _. exact HIb'.
            ++ (* the event is for neither child *)
               pose proof (Qb_of (or_introl Hninb)) as Qb.
               rewrite (Gb (or_introl Hninb)). cbv beta iota. unfold step_ok.
+              split; [exact (CN (or_introl Hnina) (or_introl Hninb))|].
               split; [rewrite (done_by_conc script _ _ _ _ _ _ _ Hk); fold rb;
                       unfold quiet in Qb; rewrite Qb, Db; apply andb_false_r|].
-              split; [|reflexivity].
+              split; [|split; reflexivity].
               apply inv_conc_keep; try assumption.
               ** fold ra pa. intros Da. exact (Adv_a Hnina Da).
               ** fold rb pb. intros _. exact (Adv_b Hninb eq_refl).
@@ -2323,8 +2561,17 @@ Definition skip_ev (rs : run_state) : run_state :=
 Definition step_leaf (e : sexpr) (rs : run_state) (id : nat) (o : outcome) : run_state :=
   let '(r, hit) := leafev e (r_st rs) id o in if hit then absorb rs r else skip_ev rs.
 
+Lemma calls_of_app : forall l1 l2, calls_of (l1 ++ l2) = calls_of l1 ++ calls_of l2.
+Proof. intros. unfold calls_of. apply flat_map_app. Qed.
+
+Lemma calls_of_XT : forall tr, calls_of (map XT tr) = tcalls tr.
+Proof.
+  induction tr as [|x tr IH]; [reflexivity|]. simpl. rewrite IH. destruct x; reflexivity.
+Qed.
+
 (* the state of the run after n events *)
 Definition run_inv (script : list sev) (e : sexpr) (n : nat) (rs : run_state) : Prop :=
+  calls_of (r_tr rs) = flat_map (calls_at script e [] 0 None) (seq 0 (S n)) /\
   match denote script e [] 0 None with
   | Some (o, t) =>
       if t <=? n then r_roots rs = 1 /\ r_st rs = OFin /\ xroots (r_tr rs) = [o]
@@ -2340,14 +2587,17 @@ Proof.
     unfold run_prefix, run_start. cbn [firstn fold_left].
     generalize (start_spec script e Hn [] 0 None (root_env false) eq_refl eq_refl).
     destruct (start e (root_env false)) as [[st tr] [o|]]; unfold res_ok, run_inv, absorb; cbn [r_st r_roots r_tr].
-    + intros [-> Hd]. rewrite Hd. cbn [Nat.leb]. split; [reflexivity|]. split; [reflexivity|].
-      rewrite xroots_app, xroots_app, xroots_XT. reflexivity.
-    + intros [Hp HI]. cbn [root_env e_stopped] in HI.
-      assert (G : r_roots {| r_st := st; r_stopped := false; r_roots := 0; r_tr := [] ++ map XT tr |} = 0 /\
-                  xroots ([] ++ map XT tr) = [] /\ Inv script e [] 0 None 0 false st).
-      { split; [reflexivity|]. split; [rewrite xroots_app, xroots_XT; reflexivity|exact HI]. }
-      destruct (denote script e [] 0 None) as [[o t]|]; [|exact G].
-      simpl in Hp. rewrite Hp. exact G.
+    + intros [Hc [-> Hd]]. split.
+      * rewrite !calls_of_app, calls_of_XT, Hc. simpl. rewrite !app_nil_r. reflexivity.
+      * rewrite Hd. cbn [Nat.leb]. split; [reflexivity|]. split; [reflexivity|].
+        rewrite xroots_app, xroots_app, xroots_XT. reflexivity.
+    + intros [Hc [Hp HI]]. cbn [root_env e_stopped] in HI. split.
+      * rewrite calls_of_app, calls_of_XT, Hc. simpl. rewrite app_nil_r. reflexivity.
+      * assert (G : r_roots {| r_st := st; r_stopped := false; r_roots := 0; r_tr := [] ++ map XT tr |} = 0 /\
+                    xroots ([] ++ map XT tr) = [] /\ Inv script e [] 0 None 0 false st).
+        { split; [reflexivity|]. split; [rewrite xroots_app, xroots_XT; reflexivity|exact HI]. }
+        destruct (denote script e [] 0 None) as [[o t]|]; [|exact G].
+        simpl in Hp. rewrite Hp. exact G.
   - (* one more event *)
     assert (Hlt : n < length script) by lia.
     destruct (nth_error script n) as [ev|] eqn:Hev; [|apply nth_error_None in Hev; lia].
@@ -2356,35 +2606,46 @@ Proof.
     fold (run_prefix e script n). specialize (IH ltac:(lia)).
     set (rs := run_prefix e script n) in *.
     change (run_ev e rs (EvLeaf id o)) with (step_leaf e rs id o).
+    destruct IH as [IHc IH].
+    assert (Hseq : flat_map (calls_at script e [] 0 None) (seq 0 (S (S n))) =
+                   calls_of (r_tr rs) ++ calls_at script e [] 0 None (S n)).
+    { rewrite seq_S, flat_map_app, <- IHc. simpl. rewrite app_nil_r. reflexivity. }
     assert (Pend : r_roots rs = 0 /\ xroots (r_tr rs) = [] /\ Inv script e [] 0 None n false (r_st rs) ->
                    done_by (denote script e [] 0 None) n = false ->
                    run_inv script e (S n) (step_leaf e rs id o)).
-    { intros [Hr [Hx HI]] Hp. unfold run_inv, step_leaf.
+    { intros [Hr [Hx HI]] Hp. unfold run_inv, step_leaf. rewrite Hseq.
       generalize (step_spec script e Hn Hnd [] 0 None n false (r_st rs) id o (Nat.le_0_l n) Hev
                             eq_refl eq_refl Hp HI).
       destruct (leafev e (r_st rs) id o) as [[[st' tr] [o'|]] hit]; unfold step_ok.
-      - intros [-> [-> Hd]]. rewrite Hd. rewrite Nat.leb_refl. unfold absorb. cbn [r_st r_roots r_tr].
-        split; [rewrite Hr; reflexivity|]. split; [reflexivity|].
-        rewrite !xroots_app, xroots_XT, Hx. reflexivity.
-      - intros [Hp' [HI' Hsame]].
-        assert (G : r_roots (if hit then absorb rs (st', tr, None) else skip_ev rs) = 0 /\
-                    xroots (r_tr (if hit then absorb rs (st', tr, None) else skip_ev rs)) = [] /\
-                    Inv script e [] 0 None (S n) false
-                      (r_st (if hit then absorb rs (st', tr, None) else skip_ev rs))).
-        { destruct hit; unfold absorb, skip_ev; cbn [r_st r_roots r_tr].
-          - split; [exact Hr|]. split; [rewrite xroots_app, xroots_XT, Hx; reflexivity|exact HI'].
-          - split; [exact Hr|]. split; [rewrite xroots_app, Hx; reflexivity|].
-            rewrite <- (Hsame eq_refl). exact HI'. }
-        destruct (denote script e [] 0 None) as [[o0 t]|]; [|exact G].
-        simpl in Hp'. rewrite Hp'. exact G. }
-    unfold run_inv in IH.
+      - intros [Hc [-> [-> Hd]]]. unfold absorb. cbn [r_st r_roots r_tr]. split.
+        + rewrite !calls_of_app, calls_of_XT, Hc. simpl. rewrite app_nil_r. reflexivity.
+        + rewrite Hd. rewrite Nat.leb_refl.
+          split; [rewrite Hr; reflexivity|]. split; [reflexivity|].
+          rewrite !xroots_app, xroots_XT, Hx. reflexivity.
+      - intros [Hc [Hp' [HI' Hsame]]]. split.
+        + destruct hit; unfold absorb, skip_ev; cbn [r_tr].
+          * rewrite calls_of_app, calls_of_XT, Hc. reflexivity.
+          * destruct (Hsame eq_refl) as [_ Et]. rewrite Et in Hc. rewrite <- Hc, calls_of_app. reflexivity.
+        + assert (G : r_roots (if hit then absorb rs (st', tr, None) else skip_ev rs) = 0 /\
+                      xroots (r_tr (if hit then absorb rs (st', tr, None) else skip_ev rs)) = [] /\
+                      Inv script e [] 0 None (S n) false
+                        (r_st (if hit then absorb rs (st', tr, None) else skip_ev rs))).
+          { destruct hit; unfold absorb, skip_ev; cbn [r_st r_roots r_tr].
+            - split; [exact Hr|]. split; [rewrite xroots_app, xroots_XT, Hx; reflexivity|exact HI'].
+            - split; [exact Hr|]. split; [rewrite xroots_app, Hx; reflexivity|].
+              destruct (Hsame eq_refl) as [Es _]. rewrite <- Es. exact HI'. }
+          destruct (denote script e [] 0 None) as [[o0 t]|]; [|exact G].
+          simpl in Hp'. rewrite Hp'. exact G. }
     destruct (denote script e [] 0 None) as [[o0 t]|] eqn:Hd.
     + destruct (t <=? n) eqn:Et.
       * (* completed earlier: the event is skipped *)
         destruct IH as [Hr [Hst Hx]]. unfold run_inv, step_leaf. rewrite Hd, Hst, leafev_OFin.
         unfold skip_ev. cbn [r_st r_roots r_tr].
         apply Nat.leb_le in Et. assert (Et' : (t <=? S n) = true) by (apply Nat.leb_le; lia). rewrite Et'.
-        split; [exact Hr|]. split; [first [reflexivity|exact Hst]|]. rewrite xroots_app, Hx. reflexivity.
+        split.
+        -- rewrite Hseq, calls_of_app. f_equal. symmetry.
+           apply (calls_after_done script e Hn _ _ _ _ _ _ Hd). lia.
+        -- split; [exact Hr|]. split; [first [reflexivity|exact Hst]|]. rewrite xroots_app, Hx. reflexivity.
       * apply Pend; [exact IH|exact Et].
     + apply Pend; [exact IH|reflexivity].
 Qed.
@@ -2403,7 +2664,7 @@ Proof.
   intros e script Hsf Hn Hnd rs.
   pose proof (run_prefix_inv script e Hsf Hn Hnd (length script) (le_n _)) as H.
   unfold run_prefix in H. rewrite firstn_all in H. fold (exec e false script) in H. fold rs in H.
-  unfold run_inv in H.
+  unfold run_inv in H. destruct H as [_ H].
   destruct (denote script e [] 0 None) as [[o t]|] eqn:Hd; [|tauto].
   pose proof (denote_le_length script e Hn _ _ _ _ _ Hd (Nat.le_0_l _)) as Hle.
   apply Nat.leb_le in Hle. rewrite Hle in H. destruct H as [Hr [_ Hx]].
@@ -2420,7 +2681,7 @@ Proof.
   intros e script Hsf Hn Hnd.
   pose proof (run_prefix_inv script e Hsf Hn Hnd (length script) (le_n _)) as H.
   unfold run_prefix in H. rewrite firstn_all in H. fold (exec e false script) in H.
-  unfold run_inv in H.
+  unfold run_inv in H. destruct H as [_ H].
   destruct (denote script e [] 0 None) as [[o t]|] eqn:Hd; [|tauto].
   pose proof (denote_le_length script e Hn _ _ _ _ _ Hd (Nat.le_0_l _)) as Hle.
   apply Nat.leb_le in Hle. rewrite Hle in H. tauto.
@@ -2437,9 +2698,22 @@ Theorem C05_timing : forall e script,
   end.
 Proof.
   intros e script Hsf Hn Hnd n Hlen. rewrite exec_prefix.
-  pose proof (run_prefix_inv script e Hsf Hn Hnd n Hlen) as H. unfold run_inv in H.
+  pose proof (run_prefix_inv script e Hsf Hn Hnd n Hlen) as H. unfold run_inv in H. destruct H as [_ H].
   destruct (denote script e [] 0 None) as [[o t]|]; [|tauto].
   destruct (t <=? n); tauto.
+Qed.
+
+(* the user callables are applied exactly as the denotation says: same callables, same arguments,
+   same order, and at the same times (the trace of the run, cut after n events, has the calls of the
+   times 0..n) *)
+Theorem C05_calls : forall e script,
+  stop_free script = true -> no_leafn e = true -> NoDup (leaf_ids e) ->
+  forall n, (n <= length script)%nat ->
+  calls_of (r_tr (exec e false (firstn n script))) =
+  flat_map (calls_at script e [] 0 None) (seq 0 (S n)).
+Proof.
+  intros e script Hsf Hn Hnd n Hlen. rewrite exec_prefix.
+  exact (proj1 (run_prefix_inv script e Hsf Hn Hnd n Hlen)).
 Qed.
 
 (* ------------------------------------------------------------------------------------------ *)
